@@ -194,3 +194,9 @@ theorem clear_spec (X : Ctx) (hq : ∀ k, X.o.panicAt k = false) (s : St) (es : 
   simpa [Vec.clear] using this
 
 end MV
+
+#print axioms MV.dropVec_spec
+#print axioms MV.truncate_spec
+#print axioms MV.clear_spec
+#print axioms MV.push_spec
+#print axioms MV.pop_spec
